@@ -43,7 +43,7 @@ import (
 )
 
 type gsym struct {
-	kind  string // recv | int | name | coll | data | config | ok | errc | errs | errnn | unknown
+	kind string // recv | int | name | coll | data | config | ok | errc | errs | errnn | unknown
 	// v2: scoll (a variadic parameter of structs with a Column field) | elem (its loop variable) | idx (the index variable of a
 	// loop over a collection) | other (a parameter of type QFrame) | pidx / pairL / pairR (the loop over qf.columns of Equals) |
 	// sub (the result of an exported frame operation called on the receiver) | okval (a value of the result type without
@@ -91,7 +91,7 @@ type gctx struct {
 	extN        int                 // calls outside the package that yield an error, so far
 	inLoop      bool                // translating the body of a loop
 	ifaces      map[string]*ast.InterfaceType
-	sharesNames bool                // GroupBy: the Grouper literal takes the receiver's name map
+	sharesNames bool // GroupBy: the Grouper literal takes the receiver's name map
 }
 
 // the fields of a struct type of the root package, by type
